@@ -246,4 +246,21 @@ theorem C13_remote_halt_lock_waits_for_the_granted_position :
     ix t ("if", "retErr != nil") 1000 < ix t ("call", "db.store.Client.ReleaseHaltLock") 0 := by
   decide
 
+/-- A forwarded commit is written only for the holder of the halt lock — facts proved by
+    `decide` about the skeleton of `handlePostTx` regenerated from http/server.go: the node's own
+    id, an unknown database and an unparsable lock id are answered before the halt lock is tested,
+    the test of `HasHaltLock` comes before the file is written, and the file is written before it is
+    applied. -/
+theorem C13_forwarded_commit_requires_the_halt_lock :
+    let ix (sk : List (String × String)) (x : String × String) (d : Nat) := (sk.findIdx? (· == x)).getD d
+    let t := Gen.Skel.Server_handlePostTx
+    ix t ("if", "id == s.store.ID()") 1000 < ix t ("if", "db == nil") 0 ∧
+    ix t ("if", "db == nil") 1000 < ix t ("if", "!db.HasHaltLock(lockID)") 0 ∧
+    ix t ("call", "strconv.ParseInt") 1000 < ix t ("if", "!db.HasHaltLock(lockID)") 0 ∧
+    ix t ("if", "!db.HasHaltLock(lockID)") 1000 < ix t ("call", "db.WriteLTXFileAt") 0 ∧
+    ix t ("call", "db.WriteLTXFileAt") 1000 < ix t ("call", "db.ApplyLTXNoLock") 0 ∧
+    (t.filter (· == ("call", "db.WriteLTXFileAt"))).length = 1 ∧
+    (t.filter (· == ("call", "db.ApplyLTXNoLock"))).length = 1 := by
+  decide
+
 end LiteFSVerif.C13
